@@ -226,22 +226,68 @@ func (c *Check) outputUnitFromDisplayedValues() {
 					return true
 				}
 			}
+		case *ssa.Parameter:
+			// a value handed to a helper of selectOutputUnit: what the callers pass
+			g := x.Parent()
+			if g == f {
+				return false
+			}
+			idx := -1
+			for k, q := range g.Params {
+				if q == x {
+					idx = k
+				}
+			}
+			for _, g2 := range withHelpers(f, 2) {
+				for _, b2 := range g2.Blocks {
+					for _, i2 := range b2.Instrs {
+						c2, ok := i2.(*ssa.Call)
+						if ok && helperCallee(g2, c2) == g && idx >= 0 && idx < len(c2.Call.Args) && dep(c2.Call.Args[idx], seen, d+1) {
+							return true
+						}
+					}
+				}
+			}
 		}
 		return false
 	}
 	var with, without []*ssa.Call
-	for _, g := range withHelpers(f, 1) {
+	classify := func(at *ssa.Call, v ssa.Value) {
+		if dep(v, map[ssa.Value]bool{}, 0) {
+			with = append(with, at)
+		} else {
+			without = append(without, at)
+		}
+	}
+	tree := withHelpers(f, 2)
+	for _, g := range tree {
 		for _, b := range g.Blocks {
 			for _, ins := range b.Instrs {
 				call, ok := ins.(*ssa.Call)
 				if !ok || call.Call.StaticCallee() != scale || len(call.Call.Args) != 3 {
 					continue
 				}
-				if dep(call.Call.Args[0], map[ssa.Value]bool{}, 0) {
-					with = append(with, call)
-				} else {
-					without = append(without, call)
+				// a look-up wrapped in a helper that receives the value: one look-up per call of the helper
+				if par, isPar := call.Call.Args[0].(*ssa.Parameter); isPar && g != f {
+					idx := -1
+					for k, q := range g.Params {
+						if q == par {
+							idx = k
+						}
+					}
+					for _, g2 := range tree {
+						for _, b2 := range g2.Blocks {
+							for _, i2 := range b2.Instrs {
+								c2, ok := i2.(*ssa.Call)
+								if ok && helperCallee(g2, c2) == g && idx >= 0 && idx < len(c2.Call.Args) {
+									classify(c2, c2.Call.Args[idx])
+								}
+							}
+						}
+					}
+					continue
 				}
+				classify(call, call.Call.Args[0])
 			}
 		}
 	}
